@@ -26,16 +26,20 @@ HELD_HISTORIES = [
       [("create", "W/a/b/x")], [("release", "W/a/b")], [("create", "W/a/y")]]),
 ]
 
-# inputs of the two recorded findings D23 / D24 (known_findings.json): run on every check of C01 and C02, reported under their
+# input of the recorded finding D24 (known_findings.json): run on every check of C01 and C02, reported under their
 # own signatures
 KNOWN_BURSTS = [
-    ("d23-created-then-enclosing-directory-renamed", [("mkdir", "W/a")],
-     [[("mkdir", "W/a/b"), ("rename", "W/a", "W/c")], [("create", "W/c/b/f")]]),
     ("d24-directory-leaves-and-returns-at-once", [("mkdir", "W/d"), ("mkdir", "W/d/s")],
      [[("rename", "W/d", "O/d"), ("rename", "O/d", "W/e")], [("create", "W/e/f")], [("create", "W/e/s/g")]]),
 ]
 
 FIXED_BURSTS = [
+    # a directory is made and the directory it is in (or one further up) is renamed at once: the new directory's IN_CREATE is
+    # read when its path is gone - it must be covered all the same (defect D23, repaired)
+    ([("mkdir", "W/a")], [[("mkdir", "W/a/b"), ("rename", "W/a", "W/c")], [("create", "W/c/b/f")]]),
+    ([("mkdir", "W/a"), ("mkdir", "W/a/p"), ("mkdir", "O/n"), ("mkdir", "O/n/dd")],
+     [[("rename", "O/n", "W/a/p/n"), ("rename", "W/a", "W/c")], [("create", "W/c/p/n/dd/f")], [("mkdir", "W/c/p/x"), ("rename", "W/c/p", "W/q")],
+      [("create", "W/q/x/g")]]),
     # two new top-level directories in one read, the first one populated before the reader gets to it
     ([], [[("mkdir", "W/p"), ("mkdir", "W/p/q"), ("create", "W/p/q/f"), ("mkdir", "W/r"), ("create", "W/r/g"), ("mkdir", "W/t")],
           [("create", "W/p/q/h")]]),
